@@ -68,6 +68,24 @@ inline std::condition_variable Gcv;
 inline std::vector<waiter *> waiters;
 inline int blocked = 0;      // parked worker threads (a notified / timed-out waiter stops counting at once)
 inline int nthreads = 0;     // worker threads of the case
+// ---- step mode: every acquisition of the scheduler mutex by a worker thread is a stall point; the controlling thread
+// lets the worker run one lock region at a time (`w`) and runs public calls in between
+inline bool step_mode = false;
+inline int tokens = 0;                   // lock acquisitions the worker may still perform
+inline bool stalled_lock = false;        // a worker thread is parked in front of the scheduler mutex
+inline const void *skip_mx = nullptr;    // the thread pool's own mutex: not a stall point
+inline thread_local bool controller = false;   // main thread / destroyer helper: never stalled
+inline void lock_stall_point(const void *mx) {
+    if (controller || mx == skip_mx) return;
+    std::unique_lock g(G);
+    if (!step_mode) return;
+    stalled_lock = true;
+    ++blocked;
+    Gcv.notify_all();
+    Gcv.wait(g, [] { return tokens > 0 || !step_mode; });   // the releaser has already done --blocked
+    if (tokens > 0) --tokens;
+    stalled_lock = false;
+}
 inline bool stall_clock = false;         // a worker thread that reads the clock parks until released (stop-race scenario)
 inline bool stalled = false;             // ... and one is parked there
 inline std::thread::id main_thread;
@@ -135,6 +153,7 @@ public:
     void lock() {
         if (_owner.load(std::memory_order_relaxed) == std::this_thread::get_id())
             vt::fatal("self-deadlock: mutex locked again by the thread that owns it", 42);
+        if (!vt::single_thread) vt::lock_stall_point(this);
         ++vt::lock_waiters;
         _m.lock();
         --vt::lock_waiters;
@@ -259,6 +278,11 @@ struct sch_t : scheduler {
         }
         return os.str();
     }
+};
+
+struct pool_t : thread_pool {
+    using thread_pool::thread_pool;
+    const void *mx_addr() const { return &_mx; }
 };
 
 static std::string tstr(vclock::time_point tp) {
@@ -502,23 +526,50 @@ static void run_start(std::istream &in, long long t0) {
 // thread is parked, and `adv <t>` moves the clock from one wait deadline to the next up to <t>, so the trace is
 // deterministic.  Completions carry the clock reading at which the main thread observed them: `sleep#k=ok@<clock>`.
 // ------------------------------------------------------------------------------------------------
-static void run_mt(std::istream &in, const std::string &kind, int nthr) {
+static void run_mt(std::istream &in, const std::string &kind, int nthr, bool step) {
     vt::single_thread = false;
     vt::now_ticks = 0;
     vt::waiters.clear();
     vt::blocked = 0;
+    vt::tokens = 0;
+    vt::stalled_lock = false;
+    vt::skip_mx = nullptr;
     vt::nthreads = kind == "thr" ? 1 : nthr;
     std::thread thr;
-    std::unique_ptr<thread_pool> pool;
+    std::unique_ptr<pool_t> pool;
     std::unique_ptr<sch_t> sch;
     if (kind == "thr") {
+        vt::step_mode = step;
         sch.reset(new sch_t(thr));
     } else {
-        pool.reset(new thread_pool(nthr));
+        pool.reset(new pool_t(nthr));
+        vt::quiesce();
+        vt::skip_mx = pool->mx_addr();
+        {
+            std::lock_guard g(vt::G);
+            vt::step_mode = step;
+        }
         sch.reset(new sch_t(*pool));
     }
     vt::watch_cv = sch->cond_addr();
     vt::quiesce();
+    // what the worker is doing at a quiescent point: in front of the scheduler mutex, parked in wait_until, or gone
+    auto wstatus = [&]() -> std::string {
+        std::lock_guard g(vt::G);
+        if (vt::stalled_lock) return "lock";
+        for (vt::waiter *x : vt::waiters)
+            if (!x->woken && x->cv == vt::watch_cv)
+                return "parked:" + (x->deadline == vt::never ? std::string("max") : std::to_string(x->deadline));
+        return "gone";
+    };
+    auto end_step_mode = [&] {
+        std::lock_guard g(vt::G);
+        if (vt::step_mode) {
+            vt::step_mode = false;
+            if (vt::stalled_lock) --vt::blocked;
+            vt::Gcv.notify_all();
+        }
+    };
     vh::fut_set<void> sl("sleep");
     std::vector<std::string> evs;
     auto poll = [&] {
@@ -528,6 +579,29 @@ static void run_mt(std::istream &in, const std::string &kind, int nthr) {
     };
     auto shutdown = [&] {
         // ~scheduler: request_stop, wait for the worker; then every promise still in the vector is dropped
+        if (step) {
+            // the worker may be in front of the mutex: run the destructor in a helper thread, then let the worker go
+            std::atomic<bool> done{false};
+            unsigned long n0 = vt::notifies;
+            std::thread destroyer([&] {
+                vt::controller = true;
+                sch.reset();
+                std::lock_guard g(vt::G);
+                done = true;
+                vt::Gcv.notify_all();
+            });
+            for (int i = 0; vt::notifies == n0 && vt::lock_waiters == 0 && !done; ++i) {
+                if (i > 30000) vt::fatal("hang: ~scheduler neither notified nor blocked", 43);
+                std::this_thread::sleep_for(std::chrono::milliseconds(1));
+            }
+            end_step_mode();
+            {
+                std::unique_lock g(vt::G);
+                if (!vt::Gcv.wait_for(g, std::chrono::seconds(15), [&] { return done.load(); }))
+                    vt::fatal("hang: ~scheduler() does not return: the worker missed the stop request and stays parked", 43);
+            }
+            destroyer.join();
+        }
         sch.reset();
         if (thr.joinable()) thr.join();
         vt::nthreads = kind == "thr" ? 0 : nthr;
@@ -539,6 +613,8 @@ static void run_mt(std::istream &in, const std::string &kind, int nthr) {
         poll();
         vt::single_thread = true;
         vt::watch_cv = nullptr;
+        vt::step_mode = false;
+        vt::skip_mx = nullptr;
     };
     std::string line;
     while (std::getline(in, line)) {
@@ -565,6 +641,27 @@ static void run_mt(std::istream &in, const std::string &kind, int nthr) {
             else k = sl.add([&](scheduler::promise p) { sch->schedule(ID(id), std::move(p), TP(tp)); });
             // the worker may already be resolving it: its completion is reported by the poll after quiescence
             head << "sleep#" << k << " ntf=" << (vt::notifies - n0);
+        } else if (w[0] == "w") {
+            // step mode: the worker performs its next lock region
+            std::lock_guard g(vt::G);
+            if (vt::step_mode && vt::stalled_lock && vt::tokens == 0) {
+                vt::tokens = 1;
+                --vt::blocked;
+                vt::Gcv.notify_all();
+            }
+            head << "w";
+        } else if (w[0] == "free") {
+            end_step_mode();
+            head << "free";
+        } else if (w[0] == "adv" && vt::step_mode) {
+            // step mode: the clock jumps; waits whose deadline has passed end (the worker then wants the mutex back)
+            long long T = num(1);
+            std::lock_guard g(vt::G);
+            if (T > vt::now_ticks.load()) vt::now_ticks = T;
+            vt::reads = 0;
+            long long nowv = vt::now_ticks.load();
+            vt::wake_lk([&](const vt::waiter &x) { return x.deadline <= nowv; }, false);
+            head << "adv";
         } else if (w[0] == "adv") {
             long long T = num(1);
             for (;;) {
@@ -601,6 +698,7 @@ static void run_mt(std::istream &in, const std::string &kind, int nthr) {
         }
         vt::quiesce();
         poll();
+        if (step) head << " w=" << wstatus();
         vh::emit(head.str(), evs);
     }
 }
@@ -686,6 +784,7 @@ static void run_stoprace(std::istream &in, long long tp) {
 
 int main() {
     vt::main_thread = std::this_thread::get_id();
+    vt::controller = true;
     std::string line;
     while (std::getline(std::cin, line)) {
         auto w = vh::split(line);
@@ -697,7 +796,9 @@ int main() {
         if (kind == "man") run_manual(std::cin);
         else if (kind == "run") run_start(std::cin, w.size() > 3 ? atoll(w[3].c_str()) : 0);
         else if (kind == "stoprace") run_stoprace(std::cin, w.size() > 3 ? atoll(w[3].c_str()) : 50);
-        else if (kind == "thr" || kind == "pool") run_mt(std::cin, kind, w.size() > 3 ? atoi(w[3].c_str()) : 2);
+        else if (kind == "thr" || kind == "pool") run_mt(std::cin, kind, w.size() > 3 ? atoi(w[3].c_str()) : 2, false);
+        else if (kind == "thrstep") run_mt(std::cin, "thr", 1, true);
+        else if (kind == "poolstep") run_mt(std::cin, "pool", w.size() > 3 ? atoi(w[3].c_str()) : 2, true);
         else std::cout << "bad-kind\n";
         std::cout.flush();
     }
